@@ -52,6 +52,28 @@ def rule_K1(ctx):
                     for x in ast.walk(t):
                         if isinstance(x, ast.Name):
                             module_vars.add(x.id)
+        # a module-level name bound exactly once, at top level, to an immutable literal expression and never declared
+        # global anywhere is a constant, not state
+        def _const_expr(e):
+            if isinstance(e, ast.Constant):
+                return isinstance(e.value, (int, float, str, bool, type(None), bytes))
+            if isinstance(e, ast.UnaryOp):
+                return _const_expr(e.operand)
+            if isinstance(e, ast.BinOp):
+                return _const_expr(e.left) and _const_expr(e.right)
+            if isinstance(e, ast.Tuple):
+                return all(_const_expr(x) for x in e.elts)
+            if isinstance(e, ast.Call) and u(e.func) in ("np.log", "numpy.log", "math.log", "np.exp", "math.exp", "float", "int", "frozenset") and all(_const_expr(a) for a in e.args) and not e.keywords:
+                return True
+            return False
+
+        constants = set()
+        for name in list(module_vars):
+            binds = [n for n in ast.walk(mod.tree) if isinstance(n, (ast.Assign, ast.AugAssign, ast.AnnAssign)) and any(isinstance(x, ast.Name) and x.id == name and isinstance(x.ctx, ast.Store) for t in (n.targets if isinstance(n, ast.Assign) else [n.target]) for x in ast.walk(t))]
+            declared = any(isinstance(n, (ast.Global, ast.Nonlocal)) and name in n.names for n in ast.walk(mod.tree))
+            if len(binds) == 1 and binds[0] in mod.tree.body and isinstance(binds[0], (ast.Assign, ast.AnnAssign)) and binds[0].value is not None and _const_expr(binds[0].value) and not declared:
+                constants.add(name)
+        module_vars -= constants
         bad = []
         locals_ = set(fi.params)
         for n in ast.walk(fi.node):
